@@ -201,6 +201,10 @@ def Date.weekday (d : Date) : Res Int :=
   | .val w => .val w
   | _ => .val (Cal.weekday (daysFromCivil d.y d.m d.d))
 
+/-- `FeelDateTime::weekday` (`mod.rs:393-395`): `self.0.weekday()` — the weekday of the date part,
+that is of the LOCAL date, whatever the offset or zone of the value. -/
+def DateTime.weekday (dt : DateTime) : Res Int := dt.date.weekday
+
 /-- `feel_time_offset` (`mod.rs:567-580`): a local time has no offset in the FEEL domain. -/
 def timeOffsetOf (dt : DateTime) (oracle : Option Int) : Option Int :=
   match dt.time.z with
@@ -214,6 +218,66 @@ def timeZoneOf (dt : DateTime) : Option (List Char) :=
   match dt.time.z with
   | .zone n => some n
   | _ => none
+
+/-! ## Property access (`feel-evaluator/src/builders.rs:1500-1566`) -/
+
+/-- The property names the temporal arms of `build_path` know (anything else is `other`). -/
+inductive PropName where
+  | year | month | day | weekday | hour | minute | second | timeOffset | timezone | other
+  deriving Repr, DecidableEq
+
+/-- Value of a path expression on a temporal value: a number, a days-and-time duration of whole
+seconds (`time offset`), a string (`timezone`), null. -/
+inductive PropVal where
+  | num (n : Int)
+  | offset (secs : Int)
+  | str (s : List Char)
+  | null
+  | panic
+  deriving Repr, DecidableEq
+
+def PropVal.ofRes : Res Int → PropVal
+  | .val w => .num w
+  | .none => .null
+  | .panic => .panic
+
+/-- The `Value::Date` arm (`builders.rs:1500-1513`). -/
+def dateProperty (d : Date) : PropName → PropVal
+  | .year => .num d.y
+  | .month => .num d.m
+  | .day => .num d.d
+  | .weekday => PropVal.ofRes d.weekday
+  | _ => .null
+
+/-- The `Value::DateTime` arm (`builders.rs:1514-1546`): every component is read from the value
+as it is written (its local date and time); `oracle` is the offset of a named zone at that local
+date and time. -/
+def dtProperty (dt : DateTime) (oracle : Option Int) : PropName → PropVal
+  | .year => .num dt.date.y
+  | .month => .num dt.date.m
+  | .day => .num dt.date.d
+  | .weekday => PropVal.ofRes dt.weekday
+  | .hour => .num dt.time.h
+  | .minute => .num dt.time.mi
+  | .second => .num dt.time.s
+  | .timeOffset => match timeOffsetOf dt oracle with
+    | some o => .offset o
+    | none => .null
+  | .timezone => match timeZoneOf dt with
+    | some n => .str n
+    | none => .null
+  | .other => .null
+
+/-- The `Value::Time` arm (`builders.rs:1547-1566`): offset and zone are read through a date-time
+made of today's date and the time (`mod.rs:206-212`); `oracle` is the offset of a named zone
+today at that time. -/
+def timeProperty (t : Time) (today : Date) (oracle : Option Int) : PropName → PropVal
+  | .hour => .num t.h
+  | .minute => .num t.mi
+  | .second => .num t.s
+  | .timeOffset => dtProperty ⟨today, t⟩ oracle .timeOffset
+  | .timezone => dtProperty ⟨today, t⟩ oracle .timezone
+  | _ => .null
 
 /-! ## Dates: validity, order (`date.rs`) -/
 
